@@ -1365,6 +1365,13 @@ func (c *batchCommandsClient) recreateStreamingClient(err error, streamClient *b
 	// waitConnReady     |
 	// recreate          |
 	// unlockForRecreate |
+	//
+	// Whoever re-creates it, this stream is broken: nothing that is still pending on it will ever be answered, so
+	// its requests have to be failed in both branches. (The epoch only decides who waits for the connection; a
+	// stream whose local epoch is behind - because another stream of this connection failed earlier or at the same
+	// time - used to re-create itself without failing its pending requests, leaving them to their time-outs, and
+	// asynchronous requests without a deadline pending for ever.)
+	c.failPendingRequests(err, streamClient.forwardedHost) // fail all pending requests of this stream.
 	waitConnReady := atomic.CompareAndSwapUint64(&c.epoch, *epoch, *epoch+1)
 	if !waitConnReady {
 		*epoch = atomic.LoadUint64(&c.epoch)
@@ -1380,7 +1387,6 @@ func (c *batchCommandsClient) recreateStreamingClient(err error, streamClient *b
 	}
 	*epoch++
 
-	c.failPendingRequests(err, streamClient.forwardedHost) // fail all pending requests.
 	b := retry.NewBackofferWithVars(context.Background(), math.MaxInt32, nil)
 	for { // try to re-create the streaming in the loop.
 		if c.isStopped() {
